@@ -32,3 +32,10 @@ Definition f64_of_u64 (n : N) : binary64 :=
 (* total / (occ as f64) *)
 Definition f64_div_bits (a : N) (d : N) : N :=
   N_of_b64 (b64_div mode_NE (b64_of_N a) (f64_of_u64 d)).
+
+(* Duration::as_secs_f64 for a duration given in nanoseconds: (secs as f64) + (nanos as f64) / 1e9 *)
+Definition f64_of_duration_nanos (d : N) : binary64 :=
+  b64_plus mode_NE (f64_of_u64 (d / 1000000000)) (b64_div mode_NE (f64_of_u64 (d mod 1000000000)) (f64_of_u64 1000000000)).
+Definition f64_secs_bits (d : N) : N := N_of_b64 (f64_of_duration_nanos d).
+(* duration.as_secs_f64() * 1000.0 *)
+Definition f64_millis_bits (d : N) : N := N_of_b64 (b64_mult mode_NE (f64_of_duration_nanos d) (f64_of_u64 1000)).
